@@ -109,6 +109,21 @@ CHECKS.update({
    design="4/C10"),
 })
 
+CHECKS.update({
+ "C09": dict(
+   level="model_checking",
+   text="Types.tla is the reference semantics of selectors through embedded fields, method sets, implements, type switches, receiver passing, type identity and interface equality; TypesScen.tla enumerates families of named struct types (<= 4 types, <= 3 method names of which one unexported in two equally named packages, value/pointer receivers, value/pointer embedding up to depth 3 and chains of 4, duplicates at one depth, shadowing, equally named types in two functions and two packages, 2-7 named/anonymous interfaces), checks on every family the meta-properties of the specification (the two formulations of method sets of the Go specification agree, shallowest-unique selector rule, T's method set is part of *T's, ambiguity promotes nothing, receiver sharing) and emits the predicted tables: assertion / comma-ok / missing method for T and *T against every interface, two type switches, dispatch target and receiver sharing in 9 call forms, == on 5 interface values per type; plus == (true/false/panic) on the boxed zero values of every pair of unnamed type expressions written at 5 sites of 3 packages and 2 functions. Every family is rendered as Go, compiled by the working tree, run under Node and compared cell by cell, with the reference toolchain as specification guard. Exhaustive inside the depth, chain4, scopes and samename bounds; the 4-type/3-name space is a seed sample.",
+   note="Trusted: TLC, Node, native Go as guard, println of bools/small ints/ASCII. All methods have signature func() int32; only struct types carry methods; no embedded interfaces in structs, no generics. On the current tree about 6% of the quick-tier cells deviate and are attributed to 9 known findings by a defect model (jsmodel.go) that only labels cells the verdict rule has already rejected and must reproduce the observed line exactly; a cell it does not reproduce is a VIOLATION.",
+   technique="TLA+ reference semantics of selectors / method sets / type identity (Types.tla) + TLC scenario enumeration with predicted tables (TypesScen.tla) replayed on compiled code",
+   design="4/C09"),
+ "C17": dict(
+   level="exploration",
+   text="Build.tla (extending Instances.tla) models every container of the build pipeline whose iteration order reaches the emitted JavaScript: listed files and Sources.Sort, the session's source map and archives, Collector.Scan/Finish, instance ids, import list, escaping-variable map, anonymous-type numbering, link-time dead-code elimination. TLC checks 'Output is a function of (sources, options)' on an exhaustive family of <= 3 generic declarations in <= 3 packages and on the <= 2-declaration family with every layout, listing, discovery order and earlier command of the session: it holds for the current code with isolated sessions, fails with each load-bearing sort removed (sentinel shapes are emitted) and fails for a session that compiled another command before (witness shapes of that finding). The property itself is decided on the real compiler: every witness and sentinel shape and VERIF_SEED-selected decorated skeletons are built many times in fresh processes x listed file permutations x minify on/off x earlier commands in the same session; sha256 of out.js and out.js.map must be one value per (program, options), real instance orders must be final orders of the model, and a difference counts as a known finding only where the model predicts it.",
+   note="The oracle is run-to-run equality on sampled map orders (probabilistic: the per-build divergence rate of an unsorted map range is about 1/8 per affected object; many groups per run). Trusted: TLC, Go's per-process map randomisation. Scenarios are resolved in GOPATH mode with a module-mode cross-check per run. The build cache, watch mode and test mains are not covered.",
+   technique="implementation-shaped TLA+ model of order-bearing containers with repair/mutant switches (TLC enumerates witness and sentinel shapes) + differential fresh-process builds of the real compiler classified through the model's predictions",
+   design="4/C17"),
+})
+
 NOT_YET = "check not built yet in this round (planned in DESIGN.md section 9)"
 ALL = ["C%02d" % i for i in range(1, 21)]
 
